@@ -22,6 +22,8 @@ import (
 	"github.com/pbenner/autodiff/algorithm/matrixInverse"
 )
 
+var branchPoints = 0 // (case, variable) pairs skipped because the routine is not smooth there
+
 func sameNumber(a, b float64) bool {
 	if math.IsNaN(a) || math.IsNaN(b) {
 		return math.IsNaN(a) && math.IsNaN(b)
@@ -89,6 +91,21 @@ func oracle(c *Case) (string, int) {
 		}
 		vp, vm := values(fp), values(fm)
 		if !allFinite(vp) || !allFinite(vm) {
+			continue
+		}
+		// the derivative claim is about points where the routine is a smooth function of the entry:
+		// skip entries at which some output jumps or has a kink (a branch decision flips at x itself,
+		// e.g. a Householder step on an already reduced column: the reflector jumps from I to diag(1,-1))
+		nonsmooth := false
+		for r := range fv {
+			d1, d2 := vp[r]-fv[r], fv[r]-vm[r]
+			if math.Abs(d1) > 1e-2*(1+math.Abs(fv[r])) || math.Abs(d2) > 1e-2*(1+math.Abs(fv[r])) ||
+				math.Abs(d1-d2) > 1e-3*(math.Abs(d1)+math.Abs(d2))+1e-9*(1+math.Abs(fv[r])) {
+				nonsmooth = true
+			}
+		}
+		if nonsmooth {
+			branchPoints++
 			continue
 		}
 		for r := range sl {
@@ -301,7 +318,7 @@ func runHunt(o Opts) {
 		try(c)
 	}
 	// fresh search, sizes ascending so that the first failure per routine is the smallest
-	rng := NewRng(o.Seed + 7777)
+	rng := NewRng(o.Seed*1000003 + 7777)
 	progs := []int{PBacksub, PDet, PDetPD, PInv, PInvUT, PInvPD, PGJ, PGJUT, PChol, PLdl, PMdotM, PGS, PHess, PLogDetPD}
 	per := o.N / (len(progs) * 4)
 	for n := 1; n <= 4 && per > 0; n++ {
@@ -354,7 +371,7 @@ func runHunt(o Opts) {
 		os := [][2]int{{1, 2}, {2, 1}, {1, 1}, {2, 2}}[(i/2)%4]
 		try(&Case{Kind: "R", P: p, D: []int{n}, Inp: hexList(inp), Act: act, K: k, O: os[0], Fid: os[1], Fam: fam})
 	}
-	res := map[string]interface{}{"found": len(all) > 0, "tried": tried, "all": all}
+	res := map[string]interface{}{"found": len(all) > 0, "tried": tried, "all": all, "nonsmooth_points_skipped": branchPoints}
 	if len(all) > 0 {
 		res["failure"] = all[0].Failure
 		res["case"] = all[0].Case
